@@ -64,6 +64,30 @@ class Interchain(Family):
         n = 120 if q else 2500
         env = dict(os.environ, TMPDIR=ctx.dir)
         traces = []
+        if prop in ("C02", "C04", "C05", "C06"):
+            # model-guided: random walks of the protocol machine (TLC -simulate on InterchainGen.tla) replayed on the real executor
+            walks = tlc_simulate_plans(ctx.sdir, "InterchainGen.tla", "InterchainGen.cfg", 60 if q else 1500, 20, ctx.seed * 3 + 1)
+            dmap = {"1:b:s": "chainB:svc1", "1:c:s": "chainC:svc1"}
+            plans = []
+            for j, ops in enumerate(walks):
+                steps = []
+                for op in ops:
+                    if op["op"] == "empty":
+                        steps.append({"step": "empty", "n": 1})
+                        continue
+                    tx = {"k": "ibtp", "src": "chainA:svc1", "dst": dmap[op["dst"]], "idx": op["idx"], "typ": op["typ"], "t": op["T"], "from": "u1"}
+                    if op.get("grp"):
+                        tx["gdst"], tx["gidx"] = ["chainB:svc1", "chainC:svc1"], [1, 1]
+                    steps.append({"step": "block", "txs": [tx]})
+                plans.append({"name": "model-%d-%d" % (ctx.seed, j), "audit": j % 3 == 0, "seed": 1, "prooftype": "serial", "chains": ["chainA", "chainB", "chainC"],
+                              "nsvc": 1, "black": {}, "steps": steps})
+            pf = os.path.join(ctx.dir, "model-plans.json")
+            json.dump(plans, open(pf, "w"))
+            od = os.path.join(ctx.dir, "t-model")
+            run_adapter_resilient(ctx.bin, ["-plans", pf], od, env, "interadp")
+            for t in collect(od):
+                t["src"] = "model-guided (tlc -simulate)"
+                traces.append(t)
         modes = [("", n), ("group", n // 2 if prop != "C05" else n), ("timed", n // 2 if prop not in ("C04", "C06") else n)]
         if prop == "C16":
             modes = [("lifecycle", n), ("", n // 2)]
